@@ -2,6 +2,8 @@ import PV.Model.Stringify
 import PV.Generated.Prec
 import PV.Proofs.SyntaxStrFlatten
 import PV.Proofs.SyntaxBEq
+import PV.Proofs.SyntaxLexPrint
+import PV.Generated.Lex
 /-
   C06 — `parse(str(e))` gives `e` back.
 
@@ -23,6 +25,13 @@ import PV.Proofs.SyntaxBEq
     class) pairs;
   * `…_cex`: each of the listed pairs that is a genuine defect, and each excluded shape, replayed
     on the models.
+
+  * the LEXER is modelled (`PV/Model/Lexer.lean`, `Lexer.lex : String → Except LexErr (List Tok)`,
+    run on the regenerated `Parser.lex_table`): `lex_table_current` (the regenerated table is the
+    table the model was written against), `lex_render` (the lexer reads the STRING form of a
+    lexically safe tree back as the printer's tokens), `roundtrip_string_partial` /
+    `roundtrip_string_current` (the round trip as a statement about strings), and the two
+    lexical defects `lookup_int_cex` (`1.u`), `true_prefix_cex` (`Truex`).
 
   Not covered by theorems (correspondence and oracle only): `Min`/`Max`, common
   subexpressions, wildcards, `inf`/`nan`, strings; a conditional as the LAST argument / element
@@ -371,5 +380,129 @@ example :
     flattenAssoc (.nary .sum [x, y, z]) = flattenAssoc (.nary .sum [x, .nary .sum [y, z]]) :=
   ⟨⟨_, rfl, by decide +kernel⟩, by decide +kernel⟩
 end cex
+
+
+/-! ### the lexer: the round trip as a statement about STRINGS -/
+
+section lexer
+open PV.Lexer PV.Generated
+
+/-- **T-gen for the lexer.**  The rule table regenerated from `Parser.lex_table` of the current
+code (tags, rule shapes, regular-expression sources, in table order) is the table the lexer model
+and its theorems were written against: any edited, added, removed or re-ordered rule breaks
+this obligation. -/
+theorem lex_table_current : lexTable = Lexer.table := by decide
+
+/-- every source of the current table is one the model has a matcher for -/
+theorem lex_table_supported_current : tableOk lexTable = true := by decide
+
+/-- **The lexer on a rendered piece list**, under the decidable piece-level check `adjOk`
+(every identifier piece is lexed as one identifier, every float piece has a `repr` spelling that
+reads back as its own value, and no piece is followed by a character that would extend it or
+change its rule): `lex (render ps) = toks ps`. -/
+theorem lex_render_adj {ps : Pieces} (h : adjOk ps = true) :
+    Lexer.lex (render ps) = .ok (toks ps) :=
+  lex_render_of_adjOk h
+
+/-- **`lex_render`.**  For every tree that is lexically safe for the printer table `S`
+(`LexSafe S e`, decidable: names are lexed as single identifiers — they match the identifier rule,
+are no keyword and do not start with `True`/`False`; float constants print with a `repr` spelling
+`D+.D+`, `D+.D+e±D+`, `D+e±D+` that `float()`/`repr()` map back to the same constant; integers
+have at most 4300 digits; n-ary nodes are non-empty, slices have two parts or more; the printed
+aggregate of an attribute look-up does not end in an integer literal), the model lexer reads the
+printed STRING back as exactly the token list of the printed pieces. -/
+theorem lex_render {S : PrintPrec} {e : Expr} {ps : Pieces} (hs : LexSafe S e = true)
+    (h : strTop S e = .ok ps) : Lexer.lex (render ps) = .ok (toks ps) :=
+  lex_render_safe hs h
+
+/-- **C06 on strings, on the fragment.**  A lexically safe tree of the fragment has a string
+form; lexing and parsing that STRING (`parseString` = `Parser.__call__`: the table-driven lexer,
+then the parser with its real fuel, whole input consumed) yields a tree that is the same once
+nested sums and products are flattened, and that prints to the same pieces (hence the same
+string). -/
+theorem roundtrip_string_partial {P : ParserPrec} {S : PrintPrec} {e : Expr}
+    (h : InFragment P S e = true) (hl : LexSafe S e = true) :
+    ∃ ps e', strTop S e = .ok ps ∧ parseString P 0 (render ps) = .ok e' ∧
+      flattenAssoc e' = flattenAssoc e ∧ strTop S e' = .ok ps := by
+  obtain ⟨ps, e', hs, hp, hf, hs'⟩ := roundtrip_partial h
+  refine ⟨ps, e', hs, ?_, hf, hs'⟩
+  have hlex : lexWith Lexer.table (render ps) = .ok (toks ps) := lex_render hl hs
+  simp only [parseString, parseStringWith, hlex, hp]
+
+/-- the same with arbitrarily nested sums and products -/
+theorem roundtrip_string_flat_partial {P : ParserPrec} {S : PrintPrec} {e : Expr} {ps : Pieces}
+    (h : InFragmentFlat P S e = true) (hl : LexSafe S e = true) (hs : strTop S e = .ok ps) :
+    ∃ e', parseString P 0 (render ps) = .ok e' ∧ flattenAssoc e' = flattenAssoc e ∧
+      strTop S e' = .ok ps := by
+  obtain ⟨e', hp, hf, hs'⟩ := roundtrip_flat_partial h hs
+  refine ⟨e', ?_, hf, hs'⟩
+  have hlex : lexWith Lexer.table (render ps) = .ok (toks ps) := lex_render hl hs
+  simp only [parseString, parseStringWith, hlex, hp]
+
+/-- **C06 on strings for the current code**: precedence tables AND lexer table regenerated from
+/repo. -/
+theorem roundtrip_string_current {e : Expr} (h : InFragment parserPrec printPrec e = true)
+    (hl : LexSafe printPrec e = true) :
+    ∃ ps e', strTop printPrec e = .ok ps ∧
+      parseStringWith lexTable parserPrec 0 (render ps) = .ok e' ∧
+      flattenAssoc e' = flattenAssoc e ∧ strTop printPrec e' = .ok ps := by
+  rw [lex_table_current]
+  exact roundtrip_string_partial h hl
+
+/-- the same with arbitrarily nested sums and products -/
+theorem roundtrip_string_flat_current {e : Expr} {ps : Pieces}
+    (h : InFragmentFlat parserPrec printPrec e = true) (hl : LexSafe printPrec e = true)
+    (hs : strTop printPrec e = .ok ps) :
+    ∃ e', parseStringWith lexTable parserPrec 0 (render ps) = .ok e' ∧
+      flattenAssoc e' = flattenAssoc e ∧ strTop printPrec e' = .ok ps := by
+  rw [lex_table_current]
+  exact roundtrip_string_flat_partial h hl hs
+
+/-- the sample tree (every covered shape) is lexically safe, and its string is parsed back -/
+example : LexSafe printPrec sample = true := by decide +kernel
+example : parseStringWith lexTable parserPrec 0
+    ("(a + b*c**2) / (-3) < d and not o.f(e, (p, q), w[i::n // 2], k=v[i, 0], l=[r]) " ++
+      "if x | y else ~g()[z] << 1") = .ok sample := by decide +kernel
+/-- float constants: the three `repr` spellings, and a negative one -/
+example : LexSafe printPrec
+    (.bin .quot (.const (.flt "-2.5" (-5) 2))
+      (.nary .sum [.const (.flt "2.5" 5 2), .const (.flt "1e-05" 5902958103587057 590295810358705651712),
+        .const (.flt "1.5e+300" 1500000000000000078757140382806630373056702871662238732373781173267703686983362293679557062620671796065556665749325817265413784853040645863467188277180060474272580801389863705606745350692182135089053429852456199917621678558451461320111979114170213741868888183230085264257173504208294580298189100810240 1),
+        .var "order", .var "$t@1"])) = true := by decide +kernel
+example : Lexer.lex "1.5e+300*order" = .ok [.flt "1.5e+300" 1500000000000000078757140382806630373056702871662238732373781173267703686983362293679557062620671796065556665749325817265413784853040645863467188277180060474272580801389863705606745350692182135089053429852456199917621678558451461320111979114170213741868888183230085264257173504208294580298189100810240 1, .sym "*", .ident "order"] := by
+  decide +kernel
+/-- exponent spellings the printer never produces are lexed (and valued) too -/
+example : Lexer.lex "1E5+2.d-1 +.5" =
+    .ok [.flt "100000.0" 100000 1, .sym "+", .flt "0.2" 3602879701896397 18014398509481984,
+      .sym "+", .flt "0.5" 1 2] := by decide +kernel
+example : Lexer.lex "a <= b<<2**c//d != e" =
+    .ok [.ident "a", .sym "<=", .ident "b", .sym "<<", .int 2, .sym "**", .ident "c", .sym "//",
+      .ident "d", .sym "!=", .ident "e"] := by decide +kernel
+example : Lexer.lex "a ! b" = .error (.invalidToken 2) := by decide +kernel
+
+/-- NEW (lexer): an attribute look-up on a non-negative integer literal prints `1.u`; the lexer
+reads `1.u` as ONE float literal with a letter tag (first float form: digits, dot, letters),
+`float("1.u")` raises ValueError.  The tree is inside the token-level fragment. -/
+theorem lookup_int_cex :
+    InFragment parserPrec printPrec (.lookup (.const (.int 1)) "u") = true ∧
+    LexSafe printPrec (.lookup (.const (.int 1)) "u") = false ∧
+    ∃ ps, strTop printPrec (.lookup (.const (.int 1)) "u") = .ok ps ∧ render ps = "1.u" ∧
+      Lexer.lexRaw (render ps).toList = .ok [("float", ['1', '.', 'u'])] ∧
+      parseStringWith lexTable parserPrec 0 (render ps) = .error (.lex .floatText) :=
+  ⟨by decide +kernel, by decide +kernel, _, rfl, by decide +kernel, by decide +kernel,
+    by decide +kernel⟩
+
+/-- NEW (lexer): the `True` / `False` rules have no `\b`: a name that starts with `True` or
+`False` is split (`Truex` ↦ `True`, `x`) and the string form of the variable does not parse. -/
+theorem true_prefix_cex :
+    InFragment parserPrec printPrec (.var "Truex") = true ∧
+    LexSafe printPrec (.var "Truex") = false ∧
+    ∃ ps, strTop printPrec (.var "Truex") = .ok ps ∧ render ps = "Truex" ∧
+      Lexer.lex (render ps) = .ok [.tTrue, .ident "x"] ∧
+      parseStringWith lexTable parserPrec 0 (render ps) = .error (.parse .parse) :=
+  ⟨by decide +kernel, by decide +kernel, _, rfl, by decide +kernel, by decide +kernel,
+    by decide +kernel⟩
+
+end lexer
 
 end PV.C06
